@@ -208,7 +208,8 @@ def run_correspondence(ck, consts):
           [("mcase", ks) for ks in shards([dict(c, coq=c["coqj"]) for c in jcases if c.get("tree_kind") == "mcase"], max_n=200)] + \
           [("wcase", ks) for ks in shards([dict(c, coq=c["coqj"]) for c in jcases if c.get("tree_kind") == "wcase"], max_n=200)] + \
           [("fcase", ks) for ks in shards([dict(c, coq=c["coqj"]) for c in jcases if c.get("tree_kind") == "fcase"], max_n=200)] + \
-          [("wfcase", ks) for ks in shards([dict(c, coq=c["coqj"]) for c in jcases if c.get("tree_kind") == "wfcase"], max_n=200)]
+          [("wfcase", ks) for ks in shards([dict(c, coq=c["coqj"]) for c in jcases if c.get("tree_kind") == "wfcase"], max_n=200)] + \
+          [("dfcase", ks) for ks in shards([dict(c, coq=c["coqj"]) for c in jcases if c.get("tree_kind") == "dfcase"], max_n=200)]
 
     def eval_shard(ix):
         i, (kind, ks) = ix
@@ -222,6 +223,8 @@ def run_correspondence(ck, consts):
             m, v, out = eval_two(ck, "C03_decodew_%d" % i, WHEADER, "wcase", ks, "wc_check_all")
         elif kind == "fcase":
             m, v, out = eval_two(ck, "C03_decodef_%d" % i, HEADER, "case", ks, "fr_check_all")
+        elif kind == "dfcase":
+            m, v, out = eval_two(ck, "C03_decodedf_%d" % i, DHEADER, "dcase", ks, "dc_fr_check_all")
         elif kind == "wfcase":
             m, v, out = eval_two(ck, "C03_decodewf_%d" % i, WHEADER, "wcase", ks, "wc_fr_check_all")
         else:
@@ -286,7 +289,7 @@ def run_correspondence(ck, consts):
             elif c["obs"]["err"]:
                 sig = "request failed: " + c["obs"]["err"] + " (" + c["obs"].get("errmsg", "")[:80] + ")"
             elif c.get("damage"):
-                sig = "a damaged Loki JSON document is accepted with rows other than one per entry the walk finds in it"
+                sig = "a damaged document is accepted with rows other than one per entry the walk finds in it"
             elif got != c["nrows"]:
                 sig = "row count differs from the number of submitted entries"
             elif any(len({len(k[col]) for col in ("ts", "fp", "msg", "val", "ttl", "type")}) > 1 for k in c["obs"]["chunks"]):
